@@ -221,6 +221,8 @@ func equalsConcrete(t types.Type, x, y value) bool {
 		return types.Identical(x.t, y.(rtype).t)
 	case unsafe.Pointer:
 		return x == y.(unsafe.Pointer)
+	case chanValue:
+		return x == y.(chanValue)
 	}
 	switch x.(type) {
 	case []value, *omap, *ssa.Function, *closure:
